@@ -222,7 +222,7 @@ def run(ctx):
     ctx.log(f"recorded {len(traces)} traces / {n_events} events / {stats['blocks']} cipher blocks "
             f"in {stats['wall_s']:.1f}s (spec theorems + recording {time.time() - t0:.0f}s)")
 
-    accepted, distinct, generated, wall = _bulk_validate(ctx, traces, parallel=12 if ctx.thorough else 6)
+    accepted, distinct, generated, wall = _bulk_validate(ctx, traces, parallel=12 if ctx.thorough else 8)
     ev.tlc_counts("AESTrace: recorded tables, unit calls and round-level call traces validated", distinct, generated, wall)
     rejected = [i for i, ok in enumerate(accepted) if not ok]
     for i, ok in enumerate(accepted):
@@ -267,15 +267,16 @@ def run(ctx):
             ev.sample({"trace": t["id"], "events": len(t["ev"]), "first": {k: _hex(x) for k, x in t["ev"][0].items()}})
     ev.set(rule="tables: all 256 inputs of each of the 8 tables (+Rcon 1..10); SubBytes/InvSubBytes on states covering "
                 "all byte values, ShiftRows/InvShiftRows on the 16 unit states + the index state, MixColumns/"
-                "InvMixColumns on all 128 single-bit states; PKCS#7 pad/unpad lengths 0..64; seeded random "
+                "InvMixColumns on all 128 single-bit states; PKCS#7 pad/unpad lengths 0..64 with random and padding-hostile messages (tail bytes equal to the pad byte, all-pad-byte, ending in 00/10/01); seeded random "
                 "(key, iv, message) calls of ECB/CBC enc/dec for 128/192/256-bit keys with related / repeated keys; "
-                "CryptAES.encrypt/decrypt for the message lengths listed under constants (thorough: every length 0..64); wrong key / IV / data lengths. "
+                "CryptAES.encrypt/decrypt for the message lengths listed under constants (thorough: every length 0..64) plus padding-hostile plaintexts round-tripped and decrypted from hand-padded streams; wrong key / IV / data lengths. "
                 "non-trivial = distinct (function, key length, blocks, message length) with >= 1 cipher block, "
                 "plus each table / unit group",
            exhaustive=False,
            constants={"traces": len(traces), "events": n_events, "cipher_blocks": stats["blocks"],
                       "calls": stats["calls"], "rejections_expected": stats["bad_calls"],
-                      "wrapper_lengths": stats["wrapper_lengths"], "key_sizes": [16, 24, 32]})
+                      "wrapper_lengths": stats["wrapper_lengths"],
+                      "hostile_plaintexts": stats.get("hostile_plaintexts", 0), "key_sizes": [16, 24, 32]})
     ev.assume("FIPS-197 / SP 800-38A known answers and the affine map were transcribed by hand into AESVectors.tla / "
               "AES.tla (cross-checked: TLC derives the published ciphertexts from the first-principles model)",
               "Bitwise!^^ of the TLA+ CommunityModules is trusted as XOR (checked against bitwise addition mod 2 on all byte pairs)",
@@ -482,6 +483,23 @@ def _worker(job):
     def add(tid, kind, events, **hdr):
         traces.append({"id": tid, "hdr": {"kind": kind, **hdr}, "ev": events})
 
+    def hostile(n):
+        """Plaintexts of length n that are adversarial with respect to PKCS#7: the last 1, 2, 3 bytes equal the
+        padding byte that will be appended (16 - n % 16), the whole message is that byte, and messages ending in
+        0x00 / 0x10 / 0x01.  An unpad that strips by value, or a pad that skips 'already padded' data, shows here."""
+        if n == 0:
+            return [b""]
+        p = 16 - n % 16
+        out = [rb(n - k) + bytes([p]) * k for k in (1, 2, 3) if k <= n]
+        out.append(bytes([p]) * n)
+        out += [rb(n - 1) + bytes([e]) for e in (0x00, 0x10, 0x01)]
+        seen, uniq = set(), []
+        for m in out:
+            if m not in seen:
+                seen.add(m)
+                uniq.append(m)
+        return uniq
+
     # ---- tables (read before anything is wrapped; they are data)
     tev = []
     for attr, name in rec.TABLES:
@@ -523,6 +541,13 @@ def _worker(job):
         except Exception as e:
             o, exc = [], type(e).__name__
         pev.append({"a": "Unit", "op": "pad", "in": list(m), "out": o if o is not None else [], "k": [], "exc": exc})
+    for n in range(1, 65):
+        for m in hostile(n):
+            try:
+                o, exc = _bl(M._pkcs7_pad(m, 16)), ""
+            except Exception as e:
+                o, exc = [], type(e).__name__
+            pev.append({"a": "Unit", "op": "pad", "in": list(m), "out": o if o is not None else [], "k": [], "exc": exc})
     add("unit:pad", "unit", pev, where="_pkcs7_pad")
     uev = []
     unpad_inputs = []
@@ -530,6 +555,9 @@ def _worker(job):
         m = rb(n)
         p = 16 - n % 16
         unpad_inputs.append(m + bytes([p]) * p)                      # valid padding: MUST be removed exactly
+    for n in range(1, 65):                                           # message tail looks like padding
+        p = 16 - n % 16
+        unpad_inputs += [m + bytes([p]) * p for m in hostile(n)]
     unpad_inputs += [rb(15) + b"\x01", rb(16) + bytes([16]) * 16, bytes([16]) * 16,
                      b"", rb(15) + b"\x00", rb(15) + b"\x11", rb(13) + b"\x03\x02\x03", rb(16), rb(32)]   # DON'T-CARE ones too
     for d in unpad_inputs:
@@ -649,7 +677,11 @@ def _worker(job):
 
     # thorough: every length 0..64 x every key size; quick: two full padding periods 0..34, the block
     # boundaries 47..49 and 63, 64, key size rotating with the length
-    lengths = list(range(0, 65)) if thorough else list(range(0, 35)) + [47, 48, 49, 63, 64]
+    if thorough:
+        lengths = list(range(0, 65))
+    else:       # block boundaries + a seeded choice of the rest (lengths 1..16, 32 get hostile round trips below)
+        fixed = [0, 15, 16, 17, 31, 32, 33, 47, 48, 49, 63, 64]
+        lengths = sorted(fixed + rng.sample([n for n in range(0, 65) if n not in fixed], 8))
     for n in lengths:
         ks = sizes if thorough else [sizes[(n + seed) % 3]]
         for size in ks:
@@ -658,6 +690,34 @@ def _worker(job):
             stream = wrap("wrap_enc", key, m, "wrap")
             if stream is not None:
                 wrap("wrap_dec", key, stream, "wrap")
+    # plaintexts hostile to PKCS#7 (see hostile()): every residue n mod 16 (n = 1..16), n = 0 and 32 (thorough:
+    # 0..33, 47..49, 63, 64); decrypt(encrypt(m)) must be m exactly -- the specification's Unpad removes p bytes,
+    # not a run of equal bytes.  Then the decrypt-only direction on streams built from hand-padded plaintext
+    # through the code's CBC encryption (the inner CBC decryption is validated step by step by TLC, so the
+    # plaintext the wrapper has to unpad is the specification's).
+    hostile_lengths = (list(range(0, 34)) + [47, 48, 49, 63, 64]) if thorough else list(range(0, 17)) + [32]
+    n_hostile = 0
+    for n in hostile_lengths:
+        cases = hostile(n)
+        pick = rng.randrange(len(cases))
+        for ci, m in enumerate(cases):
+            size = sizes[(n + ci + seed) % 3] if thorough else 16
+            key = pick_key(size)
+            stream = wrap("wrap_enc", key, m, "wrap-hostile")
+            if stream is not None:
+                wrap("wrap_dec", key, stream, "wrap-hostile")
+            n_hostile += 1
+            if thorough or ci == pick:
+                key2 = pick_key(size)
+                iv = rb(16)
+                p = 16 - n % 16
+                rec.begin()                                        # throw-away log for the helper call
+                try:
+                    ct = rec.orig["aes_cbc_encrypt"](key2, iv, m + bytes([p]) * p)
+                except Exception:
+                    continue                                       # broken CBC shows in the CBC traces
+                wrap("wrap_dec", key2, iv + ct, "wrap-hostile-deconly")
+    stats["hostile_plaintexts"] = n_hostile
     # decrypt side on streams not produced by the wrapper: valid paddings 1..16 built by hand, garbage,
     # empty payloads (every length 0..16), unaligned payloads (DON'T-CARE, the inner CBC call is still validated)
     for p in range(1, 17):
@@ -692,7 +752,10 @@ def _worker(job):
     add("fresh-iv", "fresh", [{"a": "Fresh", "ivs": ivs}], where="patch_pypdf_fallback_aes:_cryptaes_encrypt")
 
     stats["blocks"] = rec.blocks
-    stats["wrapper_lengths"] = "0..64 x 3 key sizes" if thorough else "0..34, 47..49, 63, 64 (key size rotating)"
+    stats["wrapper_lengths"] = ("0..64 x 3 key sizes" if thorough else
+                                "0,15..17,31..33,47..49,63,64 + 8 seeded others (key size rotating)") + \
+                               "; PKCS#7-hostile plaintexts for lengths " + \
+                               ("0..33,47..49,63,64" if thorough else "0..16,32")
     stats["wall_s"] = time.time() - t0
     Path(job["out"]).write_text(json.dumps({"traces": traces, "stats": stats}, separators=(",", ":")))
     return 0
